@@ -528,6 +528,10 @@ def execute(plan: Dict[str, Any]) -> Dict[str, Any]:
                 raise Violation("compiles", "torch_compile_raised", f"{type(e).__name__}: {str(e)[:300]}")
             outcomes: List[str] = []
             sigs = set()
+            # rms_norm computes its statistics in float32 whatever the input dtype (x.float()):
+            # float64 results are then only float32-accurate, in eager as well
+            f32_internal = any(a["atom"] == "rms_norm" for a in plan["atoms"]) or \
+                plan.get("module", {}).get("type") in ("RMSNorm", "TransformerLayer")
             last_good: Optional[Dict[str, Any]] = None
             for i, op in enumerate(plan["ops"]):
                 k = op["op"]
@@ -586,6 +590,8 @@ def execute(plan: Dict[str, Any]) -> Dict[str, Any]:
                 outcomes.append(oc)
                 probe("outcome:" + oc)
                 tol_scale = 4.0 if backend == "inductor" else 1.0
+                if f32_internal and op["dtype"] == "float64":
+                    tol_scale *= TOL["torch.float32"] / TOL["torch.float64"]
                 d = None
                 if len(got["outs"]) != len(want["outs"]):
                     d = f"output: {len(got['outs'])} outputs vs eager {len(want['outs'])}"
@@ -600,6 +606,9 @@ def execute(plan: Dict[str, Any]) -> Dict[str, Any]:
                         d = _cmp(x, y, f"grad[{j}]", tol_scale)
                         if d:
                             break
+                if d and backend == "inductor" and plan.get("tail") and not d.startswith("output"):
+                    raise Violation("eager_equals_compiled", "inductor_aliased_outputs_lose_backward_scale",
+                                    f"{d} after outcome {oc} (history {outcomes}) {where} call {op}")
                 if d:
                     raise Violation("eager_equals_compiled", "output_mismatch" if d.startswith("output") else "gradient_mismatch",
                                     f"{d} after outcome {oc} (history {outcomes}) {where} call {op}")
@@ -737,6 +746,10 @@ def _fx_phase(plan: Dict[str, Any], built: Built, res: Dict[str, Any], log: Any,
 
 
 def neutralise(plan: Dict[str, Any], finding: Dict[str, Any]) -> Optional[Dict[str, Any]]:
+    if finding.get("id") == "D15" and plan.get("phase") == "inductor" and plan.get("tail"):
+        c = copy.deepcopy(plan)
+        c["phase"] = "aot_eager"  # counterfactual: the same callable and history without Inductor code generation
+        return c
     if finding.get("id") == "D14":
         c = copy.deepcopy(plan)
         c["knobs"].update(dynamic=False, automatic_dynamic=False)  # counterfactual: static recompiles only
